@@ -1,0 +1,12 @@
+//go:build verif
+
+// Machine-checked contracts for package hmac (comment-only; guarded by the
+// "verif" build tag; read by /verif/tool).
+
+package hmac
+
+//@ func Equal
+//@   safety C04 C07
+//@   props C04 C07
+//@   pure
+//@   ensures result <==> bytes_eq(mac1, mac2)
